@@ -41,6 +41,7 @@ type Prog struct {
 	entryCache  map[*ssa.Function]relSet
 	ipathCache  map[*ssa.Function][]ipath
 	keepOpaque  map[*ssa.Function]bool
+	havoc       bool
 	exitCache   map[*ssa.Function]relSet
 	srcFuncs    []*ssa.Function // all functions (incl. anonymous) with source in repo packages
 	recognisers map[*ssa.Function]bool
